@@ -246,8 +246,9 @@ theorem decodeVoiced_spec {rate : Rate} {nbSubfr sig cc prevSig : Nat} {prevLag 
     unfold decodePitchLtp
     generalize pitchContour rate nbSubfr = TC at h ⊢
     rw [reads_append, reads_append, reads_append, reads_cons_append] at h
-    simp only [after_append, after_cons_cons] at h ⊢
+    simp only [after_append, after_cons_cons] at h
     rcases h with ⟨⟨⟨h1, h2, h2'⟩, h3⟩, h4⟩
+    rw [after_append, after_append, after_append, after_cons_cons]
     rw [decodeLag_spec hlag h1]
     simp only
     rw [sym_spec h2]
